@@ -196,3 +196,13 @@ let () =
         "{\"r\":\"ok\",\"flat\":" ^ jlist jitem items ^ ",\"exec\":" ^ jpairs (exec items c [])
         ^ ",\"spec\":" ^ jpairs (spec_f b c (add c (S (ops_f b)))) ^ ",\"ops\":" ^ jnat (ops_f b) ^ "}"
     | _ -> raise (Bad "macrora"))
+
+(* C06: meta attributes and the dispatch to the SsbScript compiler.  (meta (cps of a text)) *)
+let () =
+  register "meta" (function
+    | L [ _; t ] ->
+        let t = as_text t in
+        "{\"r\":\"ok\",\"attrs\":" ^ jlist (fun (k, v) -> "[" ^ jtext k ^ "," ^ jtext v ^ "]") (parse_meta t)
+        ^ ",\"dispatch\":" ^ (if dispatches_to_ssbscript t then "true" else "false")
+        ^ ",\"head\":" ^ jtext fALLBACK_HEAD ^ "}"
+    | _ -> raise (Bad "meta"))
